@@ -10,4 +10,7 @@ for l in open('/verif/properties.jsonl'):
     if p['id']==pid: break
 t=open('/verif/harness/SEED_PROMPT.txt').read()
 t=t.replace('{WT}',wt).replace('{ID}',pid).replace('{TITLE}',p['title']).replace('{STATEMENT}',p['statement']).replace('{FILES}',', '.join(p['anchors'].get('files',[])))
+if len(sys.argv)>3 and sys.argv[3]:
+    t+="\n\nADDITIONAL CONSTRAINT: another engineer has already delivered the following change for this property; yours must be DIFFERENT — a different function or code path, and if the property has several clauses, preferably a different clause:\n  "+sys.argv[3]+"\n"
+t=t.replace('SEED_meta.json   : {"property":"%s"'%pid,'SEED_meta.json   : {"property":"%s"'%pid)
 print(t)
